@@ -39,14 +39,20 @@ class Recorder:
         self.orig = CompressConfig.compute_m_trunc
         rec = self
 
-        def wrapped(cfg, sigma, idx, left):
-            r = rec.orig(cfg, sigma, idx, left)
-            md = None
-            if cfg.max_dims is not None:
-                b = idx + 1 if left else idx
-                md = int(cfg.max_dims[b]) if 0 <= b < len(cfg.max_dims) else None
-            rec.calls.append({"sigma": np.asarray(sigma, dtype=float).copy(), "crit": cfg.criteria.name, "thr": float(cfg.threshold),
-                              "md": md, "got": int(r)})
+        def wrapped(cfg, *a, **k):
+            r = rec.orig(cfg, *a, **k)
+            try:          # the recorder never interferes; a call it cannot interpret is simply not recorded
+                sigma = a[0] if a else k["sigma"]
+                idx = a[1] if len(a) > 1 else k["idx"]
+                left = a[2] if len(a) > 2 else k["left"]
+                md = None
+                if cfg.max_dims is not None:
+                    b = idx + 1 if left else idx
+                    md = int(cfg.max_dims[b]) if 0 <= b < len(cfg.max_dims) else None
+                rec.calls.append({"sigma": np.asarray(sigma, dtype=float).copy(), "crit": cfg.criteria.name, "thr": float(cfg.threshold),
+                                  "md": md, "got": int(r)})
+            except Exception:
+                pass
             return r
         CompressConfig.compute_m_trunc = wrapped
         return self
